@@ -22,7 +22,7 @@ use crate::util::catch;
 use crate::valid_ts;
 use nitrogql_config_file::{Config, ScalarTypeConfig, SendReceiveScalarTypeConfig, SeparateScalarTypeConfig};
 use serde_json::{Value as J, json};
-use std::collections::BTreeMap;
+use std::collections::{BTreeMap, BTreeSet};
 use std::sync::Mutex;
 use std::sync::atomic::{AtomicU64, Ordering};
 use std::time::Duration;
@@ -325,8 +325,39 @@ fn check_case_inner(rep: &Reporter, case: &Case, texts: &[String], c: &Chooser, 
         *cnt.skipped.lock().unwrap().entry(format!("not-valid:{}", findings[0].rule)).or_insert(0) += 1;
         return;
     }
-    let case_json = |extra: J| json!({"files": texts, "tags": case.tags, "picks": c.picks(), "detail": extra});
+    // the same schema as the introspection result a conforming server gives for it, when nothing of the case lives in
+    // what introspection does not carry (directive applications other than @deprecated / @specifiedBy, plugins)
+    let json_eligible = case.plugins.is_empty() && case.model.is_none() && case.scalar_ext.is_none() && !whole.defs.iter().any(|d| d.dirs.iter().any(|x| x.name.s == "nitrogql_ts_type"));
+    let clash = case.tags.iter().find(|t| t.starts_with("clash:type-named-")).cloned();
+    // identifier hygiene (types named like generated identifiers) is the SDL route's business: one route, one key
+    // (quick tier: up to two deviations, so that the SDL route still completes its third level within the time cap)
+    let json_eligible = json_eligible && clash.is_none() && (rep.tier != "quick" || c.deviations() <= 2);
+    for route in if json_eligible { &["sdl", "json"][..] } else { &["sdl"][..] } {
+        if *route == "json" {
+            crate::report::set_key_suffix(Some(match &clash {
+                Some(t) => format!("{t},schema-read-from-introspection-json"),
+                None => "schema-read-from-introspection-json".to_string(),
+            }));
+        }
+        check_route(rep, case, texts, c, cnt, &whole, route);
+        crate::report::set_key_suffix(clash.clone());
+    }
+}
+
+fn check_route(rep: &Reporter, case: &Case, texts: &[String], c: &Chooser, cnt: &Cnt, whole: &TsDoc, route: &str) {
+    let case_json = |extra: J| json!({"files": texts, "tags": case.tags, "route": route, "picks": c.picks(), "detail": extra});
     let generated = catch(|| {
+        if route == "json" {
+            let sch = Sch::from_doc(whole).map_err(|e| format!("rejected: reference schema: {e}"))?;
+            // without the `__Schema`, `__Type`, ... entries: the reference schema the outputs are judged against is the SDL's,
+            // which does not list them (with them listed the subject declares them like any other type of the schema)
+            let json_text = crate::introspect::introspection_json(&sch, crate::introspect::IntroOpts { meta_types: false, ..Default::default() }).to_string();
+            let out = crate::c15::route_json(&json_text, "query Q { __typename }\n", &case.subject_cfg, true).map_err(|e| if e.starts_with("schema_dts") || e.starts_with("resolvers_dts") { e } else { format!("rejected: {e}") })?;
+            if let Some(k) = out.rejected {
+                return Err(format!("rejected: {k:?}"));
+            }
+            return Ok((out.schema_dts, out.resolvers_dts));
+        }
         let parsed = pipeline::parse_schema_files(texts).map_err(|f| format!("{:?}", f.diags))?;
         // the plugin objects as the CLI holds them: the scalars plugin has been told the schema's extensions
         let plugins: Vec<nitrogql_plugin::Plugin<'static>> = case
@@ -379,15 +410,25 @@ fn check_case_inner(rep: &Reporter, case: &Case, texts: &[String], c: &Chooser, 
         rep.report(Violation { key: "malformed_ts:resolvers".into(), what: format!("the resolvers declaration file is not well-formed TypeScript: {e}"), case: case_json(json!({"resolvers_dts": resolvers_text})) });
         return;
     }
-    let sch = match Sch::from_doc(&whole) {
+    let sch = match Sch::from_doc(whole) {
         Ok(s) => s,
         Err(_) => return,
     };
+    let listed_in_json: Option<BTreeSet<String>> = (route == "json").then(|| {
+        let j = crate::introspect::introspection_json(&sch, crate::introspect::IntroOpts { meta_types: false, ..Default::default() });
+        j["__schema"]["types"].as_array().into_iter().flatten().filter_map(|t| t["name"].as_str().map(|s| s.to_string())).collect()
+    });
     // (ii) every type in every target
     for target in Target::ALL {
         let rs = RefSchema { sch: &sch, scalars: case.scalars.clone(), optional_input: case.cfg.generate.r#type.allow_undefined_as_optional_input, omit_typename: false, model: None };
         let names: Vec<String> = crate::schema::BUILTIN_SCALARS.iter().map(|s| s.to_string()).chain(sch.order.iter().cloned()).collect();
         for name in names {
+            // an introspection result lists the standard scalars the schema uses; the others are not types of that schema
+            if let Some(l) = &listed_in_json
+                && !l.contains(&name)
+            {
+                continue;
+            }
             if !rs.exists_in(&name, target) {
                 continue;
             }
